@@ -274,7 +274,11 @@ func (bi *BlockInfo) Chain(f *ssa.Function) string {
 // interface invocations every method of a type declared in pkg that
 // implements the interface.
 func Resolver(pkg *ssa.Package) func(Call) []*ssa.Function {
-	cache := map[*types.Func][]*ssa.Function{}
+	type ck struct {
+		t types.Type
+		m string
+	}
+	cache := map[ck][]*ssa.Function{}
 	return func(c Call) []*ssa.Function {
 		if c.Static != nil {
 			if c.Static.Pkg == pkg || (c.Static.Parent() != nil) {
@@ -289,24 +293,22 @@ func Resolver(pkg *ssa.Package) func(Call) []*ssa.Function {
 		if c.Method == nil {
 			return nil
 		}
-		if r, ok := cache[c.Method]; ok {
+		// resolve against the static interface type of the receiver value (more
+		// precise than the interface that declares the method, e.g. io.Closer)
+		it := c.Common.Value.Type()
+		k := ck{it, c.Method.Name()}
+		if r, ok := cache[k]; ok {
 			return r
 		}
 		var out []*ssa.Function
-		recv := c.Method.Type().(*types.Signature).Recv()
-		if recv != nil {
-			if iface, ok := recv.Type().Underlying().(*types.Interface); ok {
-				out = Implementers(pkg, iface, c.Method.Name())
-				var keep []*ssa.Function
-				for _, f := range out {
-					if f.Pkg == pkg {
-						keep = append(keep, f)
-					}
+		if iface, ok := it.Underlying().(*types.Interface); ok {
+			for _, f := range Implementers(pkg, iface, c.Method.Name()) {
+				if f.Pkg == pkg {
+					out = append(out, f)
 				}
-				out = keep
 			}
 		}
-		cache[c.Method] = out
+		cache[k] = out
 		return out
 	}
 }
